@@ -65,10 +65,24 @@ def gen_type(r, types, depth=0, maxdepth=4):
 STR_CHARS = "abc XYZ_-+/*.,:;{}[]()@|#!?<>=~'0123456789%$&^`"
 
 
+ESCAPES = ['\\"', "\\\\", "\\n", "\\t", "\\x"]
+
+
 def gen_string(r):
+    """Raw body of a string literal (the tree keeps escapes verbatim): may contain backslash
+    escapes, in particular an escaped quote at either end."""
     c = r.random()
     if c < 0.1:
         return ""
+    if c < 0.28:
+        parts = []
+        for _ in range(r.randint(1, 4)):
+            parts.append(r.choice(ESCAPES) if r.random() < 0.6 else "".join(r.choice(STR_CHARS) for _ in range(r.randint(1, 4))))
+        if r.random() < 0.4:
+            parts.append('\\"')
+        if r.random() < 0.3:
+            parts.insert(0, '\\"')
+        return "".join(parts)
     if c < 0.2:
         return r.choice(["// not a comment", "/* nor this */", "a // b /* c", "struct X { }", "mod a.b;", "|", ","])
     return "".join(r.choice(STR_CHARS) for _ in range(r.randint(1, 10)))
